@@ -221,6 +221,12 @@ ESinkDestroyed(m, e) ==
                   "sink destroyed while referenced or before its statements were written")
   IN [m1 EXCEPT !.sk[e.s].alive = FALSE]
 \* the backend reports the logger gone (count dropped / get_logger fails / blocking removal returned)
+\* looking a sink up by name (get_sink / create_or_get_sink on an existing name): a sink that is alive and that the user still
+\* holds must be found and be that very object (C17: idempotent create/get of sinks)
+ESinkGet(m, e) ==
+  IF Has(m.sk, e.s) /\ m.sk[e.s].alive /\ m.sk[e.s].held
+  THEN Check(m, "ok17", e.found /\ e.same, "a live sink was not found by name, or a second object exists under its name")
+  ELSE m
 ELoggerGone(m, e) ==
   LET pend == {id \in DOMAIN m.st : m.st[id].lg = e.lg /\ m.st[id].acc = 1 /\ id \notin m.faulty /\
                  \E sname \in Range(m.st[id].sinks) : Deliverable(m, id, sname) /\ ~Delivered(m, id, sname)}
@@ -280,6 +286,7 @@ MStep(m, e) ==
     [] e.k = "remove" -> ERemove(m, e)
     [] e.k = "dropsink" -> EDropSinkRef(m, e)
     [] e.k = "sinkdestroyed" -> ESinkDestroyed(m, e)
+    [] e.k = "sinkget" -> ESinkGet(m, e)
     [] e.k = "loggergone" -> ELoggerGone(m, e)
     [] e.k = "removebret" -> ERemoveBlockingRet(m, e)
     [] e.k = "loggercount" -> ELoggerCount(m, e)
